@@ -138,3 +138,31 @@ Theorem bsearch_dir_ignore_refuted :
   ignored (bs "pkg") (ig_rule [bs "gen.old/"; bs "gen/"]) (bs "pkg/gen.old/a.go") = true /\
   ignored (bs "pkg") (ig_rule [bs "gen.old/"; bs "gen/"]) (bs "pkg/generic/a.go") = false.
 Proof. vm_compute. repeat split. Qed.
+
+(** ** Every file ignore entry is a [path.Match] pattern - escapes included
+
+    [ignored_only]: an entry that does not end in "/" ignores exactly the names
+    [path.Match] matches with it.  The backslash is a meta character of
+    [path.Match] like '*', '?' and '[': "a\.txt" matches a.txt, "a\ b" matches
+    "a b", "\[x\]" matches "[x]", a trailing backslash is [ErrBadPattern] and
+    ignores nothing.  A shortcut that looks entries WITHOUT '*', '?', '[' up as
+    literal names is refuted: it no longer ignores a.txt under "a\.txt", and
+    ignores the file literally called a\.txt, which the pattern does not match. *)
+Definition has_star_qmark_lbrack (s : str) : bool :=
+  existsb (fun c => N.eqb c c_star || N.eqb c c_qmark || N.eqb c c_lbrack) s.
+
+Definition ignored_exact_lookup (p : str) (r : rule) (name : str) : bool :=
+  existsb (under_ignored_dir name) (ignore_dirs p r) ||
+  existsb (fun i => if has_star_qmark_lbrack i then matches i name else str_eqb i name) (ignore_pats p r).
+
+Theorem escaped_ignore_is_a_pattern_refuted :
+  ignored [] (ig_rule [bs "a\.txt"]) (bs "a.txt") = true /\
+  ignored_exact_lookup [] (ig_rule [bs "a\.txt"]) (bs "a.txt") = false /\
+  ignored [] (ig_rule [bs "a\ b"]) (bs "a b") = true /\
+  ignored_exact_lookup [] (ig_rule [bs "a\ b"]) (bs "a b") = false /\
+  ignored [] (ig_rule [bs "\[x\]"]) (bs "[x]") = true /\
+  ignored [] (ig_rule [bs "a.txt\"]) (bs "a.txt") = false /\
+  ignored [] (ig_rule [bs "a\.txt"]) (bs "a\.txt") = false /\
+  ignored_exact_lookup [] (ig_rule [bs "a\.txt"]) (bs "a\.txt") = true /\
+  ignored (bs "pkg") (ig_rule [bs "d/a\.txt"]) (bs "pkg/d/a.txt") = true.
+Proof. vm_compute. repeat split. Qed.
